@@ -16,6 +16,8 @@ E3_CORPUS = [
     dict(name="g7_sugar", file="/verif/corpus/g7_sugar.rustemo", args=[], quick=True),
     dict(name="calc4", file="/repo/docs/src/tutorials/calculator/calculator4/src/calculator.rustemo", args=[], quick=True),
     dict(name="glr_calc", file="/repo/tests/src/glr/forest/calc.rustemo", args=["--glr"], quick=True),
+    dict(name="custlex2", file="/repo/tests/src/lexer/custom_lexer/custom_lexer_2.rustemo", args=["--lexer", "custom"], quick=True),
+    dict(name="custlex1", file="/repo/tests/src/lexer/custom_lexer/custom_lexer_1.rustemo", args=["--lexer", "custom"], quick=False),
     dict(name="g1_expr", file="/verif/corpus/g1_expr.rustemo", args=[], quick=False),
     dict(name="g9_pager", file="/repo/tests/src/special/pager_g1/pager_g1.rustemo", args=[], quick=False),
     dict(name="json", file="/repo/examples/json/src/json.rustemo", args=[], quick=False),
